@@ -1,6 +1,13 @@
 import MidoProofs.SrcTie.Tok
+import MidoProofs.SrcTie.Parser
 #print axioms Mido.src_spec_table
 #print axioms Mido.src_feed_data
 #print axioms Mido.src_feed_status
 #print axioms Mido.src_feed_byte
 #print axioms Mido.src_feed
+#print axioms Mido.src_parser_loop
+#print axioms Mido.src_parser_decode
+#print axioms Mido.src_parser_feed
+#print axioms Mido.src_parser_feed_byte
+#print axioms Mido.src_parser_get
+#print axioms Mido.src_parser_pending
